@@ -4,7 +4,11 @@ import re
 from utils import hash_sorted_object
 from validation import patterns
 from validation.schema_validator import SchemaValidator
-from validation.utils import parse_ref_id, truncate_schema_id
+from validation.utils import (
+    action_ref_from_dependency_ref,
+    parse_ref_id,
+    truncate_schema_id,
+)
 from visualization.dependency_chart_layout import DependencyChartLayout
 from services.miro import MiroBoard
 
@@ -147,18 +151,16 @@ class DependencyGraph:
                         continue
 
                     for operand in ["left", "right"]:
-                        if (
-                            operand not in dep["compare"]
-                            or "ref" not in dep["compare"][operand]
-                        ):
+                        # literal operands and variables are not graph nodes
+                        action_ref = action_ref_from_dependency_ref(dep, operand)
+                        if action_ref is None:
                             continue
 
-                        if "ref" in dep["compare"][operand]:
-                            self._add_edge(
-                                checkpoint_alias,
-                                self._action_id_from_ref(dep["compare"][operand]["ref"]),
-                                action_dependency=dep["compare"],
-                            )
+                        self._add_edge(
+                            checkpoint_alias,
+                            self._action_id_from_ref(action_ref),
+                            action_dependency=dep["compare"],
+                        )
                 elif "checkpoint" in dep:
                     self._explore_edges_recursive(
                         checkpoint_alias,
@@ -174,16 +176,12 @@ class DependencyGraph:
                 return
 
             for operand in ["left", "right"]:
-                if (
-                    operand not in dependency["compare"]
-                    or "ref" not in dependency["compare"][operand]
-                ):
+                # literal operands and variables are not graph nodes
+                action_ref = action_ref_from_dependency_ref(dependency, operand)
+                if action_ref is None:
                     continue
 
-                if "ref" in dependency["compare"][operand]:
-                    to_action_id = self._action_id_from_ref(
-                        dependency["compare"][operand]["ref"]
-                    )
+                to_action_id = self._action_id_from_ref(action_ref)
 
                 self._add_edge(
                     dependent_id, to_action_id, action_dependency=dependency["compare"]
